@@ -12,32 +12,32 @@ TECH = "bounded symbolic execution of the real Python source (sx engine: import-
 
 INFO = {
     "C01": {
-        "text": "Bounded symbolic model checking of the real SCTP send/receive code: fragmentation round trip, receive-side BMC over solver-chosen arrival schedules (loss, duplication, reordering) with symbolic 32-bit TSN / 16-bit SSN origins and symbolic payload bytes, and an end-to-end send->receive round trip for str/bytes (full Unicode, both empties).",
+        "text": "Bounded symbolic model checking of the real SCTP send/receive code: fragmentation round trip, receive-side BMC over solver-chosen arrival schedules (loss, duplication, reordering) with symbolic 32-bit TSN / 16-bit SSN origins and symbolic payload bytes, an end-to-end send->receive round trip for str/bytes (full Unicode, both empties); a BMC with a partially reliable channel next door (abandonment must not cost the reliable channel a message), the per-message reliability parameters chosen at flush time, FORWARD-TSN stream bookkeeping after acknowledgement, and re-use of a stream id after a reset.",
         "note": "Bounds: <=2 streams, <=4 chunks, 4 (quick) / 5-6 arrivals, messages <=3 fragments; fragmentation over a sweep of 9 / 18 boundary lengths up to 65536 (lengths are not symbolic); DTLS transport stubbed by a datagram list; asyncio.ensure_future/call_later stubbed; z3 and the proxy library are trusted (proxies are cross-validated against CPython on every run).",
         "ref": "DESIGN.md 4 C01",
     },
     "C02": {
-        "text": "The liveness claim is reduced to no-wedge safety invariants (flight-size accounting, T3 armed iff data outstanding, queue hand-over, retransmission after T3, SACK progress) that are decided by one symbolic step from an arbitrary invariant-satisfying sender state, plus a BMC over two back-to-back real transports with solver-chosen deliver/drop/duplicate/timer events as history witness. The temporal closure is a paper argument in DESIGN.md.",
+        "text": "The liveness claim is reduced to no-wedge safety invariants (flight-size accounting, T3 armed iff data outstanding, queue hand-over, retransmission after T3, SACK progress) that are decided by one symbolic step from an arbitrary invariant-satisfying sender state, plus a BMC over two back-to-back real transports with solver-chosen deliver/drop/duplicate/timer events as history witness, the receiver side of 'everything sent is delivered' (receive BMC over fragmented messages) and the same with a partially reliable channel sharing the association. The temporal closure is a paper argument in DESIGN.md.",
         "note": "Bounds: sent queue <=3 (quick) / <=4, <=2 gap blocks, <=5 events; RTO float arithmetic and real timers outside; temporal closure not machine-checked.",
         "ref": "DESIGN.md 4 C02",
     },
     "C03": {
-        "text": "Partial: (i) the negotiation kernels (direction algebra, find_common_codecs with symbolic payload types / apt, preferences, header extensions) are executed symbolically against reference conditions; (ii) a BMC over configurations drives one real offer/answer round between two real RTCPeerConnection objects (solver-chosen transceiver kinds/directions on both sides, data channel, codec preference, bundle policies) and checks stable/stable, mirrored m-lines, BUNDLE group, offered codecs with the offerer's payload types, RTX next to its base, header-extension ids, definite DTLS role, complementary current directions. Connectivity over ICE/DTLS/SCTP is outside.",
-        "note": "Bounds: offer of <=3 remote codecs (kernels); <=2 (quick) / <=3 offerer and <=1 / <=2 answerer transceivers, 2 / 9 bundle policy pairs (real objects). Not claimed: that the negotiated session actually connects and that data channels open (aioice sockets, OpenSSL), follow-up negotiations.",
+        "text": "Partial: (i) the negotiation kernels (direction algebra, find_common_codecs with symbolic payload types / apt, preferences, header extensions) are executed symbolically against reference conditions; (ii) a BMC over configurations drives one real offer/answer round between two real RTCPeerConnection objects (solver-chosen transceiver kinds/directions on both sides, data channel, codec preference, bundle policies) and checks stable/stable, mirrored m-lines, BUNDLE group, offered codecs with the offerer's payload types, RTX next to its base, header-extension ids, definite DTLS role, complementary current directions; a follow-up negotiation (same or swapped offerer adds a transceiver) must keep mids, transports, ICE roles and both connections alive. Connectivity over ICE/DTLS/SCTP is outside.",
+        "note": "Bounds: offer of <=3 remote codecs (kernels); <=2 (quick) / <=3 offerer and <=1 / <=2 answerer transceivers, 2 / 9 bundle policy pairs (real objects). Not claimed: that the negotiated session actually connects and that data channels open (aioice sockets, OpenSSL), negotiations overlapping in time.",
         "ref": "DESIGN.md 4 C03",
     },
     "C04": {
-        "text": "Partial: fingerprint policy of _validate_peer_identity / start() gating and the SRTP key/salt layout are executed symbolically with OpenSSL / libsrtp stubbed.",
+        "text": "Partial: fingerprint policy of _validate_peer_identity / start() gating, the SRTP key/salt layout, the RFC 7983 demultiplexing of _recv_next over all first/second bytes, the per-transport SRTP profile list handed to the DTLS context, and sendability of packets up to 1023 sequence numbers late (against a model of libsrtp's replay window) are executed symbolically with OpenSSL / libsrtp stubbed.",
         "note": "Handshake, certificate parsing and SRTP authentication are C code and outside the claim.",
         "ref": "DESIGN.md 4 C04",
     },
     "C05": {
-        "text": "No-crash harnesses: every byte of a bounded-length datagram is symbolic; the real RTP/RTCP/SCTP/codec parsers and receive handlers are executed on it; any exception other than ValueError escaping, or a path exceeding the unwinding budget (hang), is a violation candidate replayed on the plain code.",
+        "text": "No-crash harnesses: every byte of a bounded-length datagram is symbolic; the real RTP/RTCP/SCTP/codec parsers and receive handlers are executed on it; any exception other than ValueError escaping, or a path exceeding the unwinding budget (hang), is a violation candidate replayed on the plain code. 'Processes subsequent valid traffic normally' is checked for SCTP: after a nonsensical complete DATA message (any TSN / stream sequence number) or a stray INIT on an established association, two genuine messages must be delivered in order.",
         "note": "Bounds: RTP/RTCP datagrams <=20 B quick / <=24 B thorough (first one or two bytes fixed per job; NACK bitmasks restricted to 3 free bits); SCTP common header + 4..12 B of chunks quick / up to 24 B thorough in 7 association states, plus structure-aware DATA/DCEP, two-DATA and SACK-gap harnesses; real receiver / sender RTCP handlers with payloads <=8 / 12 B. crc32c stubbed so that every structured input passes the checksum (replays carry the real CRC); hangs = paths over the decision budget or a 30 s path cap, confirmed by a concrete replay under a 2 s watchdog; OpenSSL/libsrtp outside.",
         "ref": "DESIGN.md 4 C05",
     },
     "C06": {
-        "text": "BMC over two back-to-back real transports with one reliable and one partially reliable channel plus one-step checks of _maybe_abandon / FORWARD-TSN handling from symbolic states.",
+        "text": "BMC over two back-to-back real transports with one reliable and one partially reliable channel plus one-step checks from symbolic states: _maybe_abandon on T3 and on the third SACK strike (flight-size / timer invariants), FORWARD-TSN on the receiver incl. messages held behind the abandoned one, FORWARD-TSN acknowledgement bookkeeping on the sender.",
         "note": "Bounds: 2 channels, <=4 chunks, <=6 events; clock stubbed by a symbolic non-decreasing value.",
         "ref": "DESIGN.md 4 C06",
     },
@@ -47,37 +47,37 @@ INFO = {
         "ref": "DESIGN.md 4 C07",
     },
     "C08": {
-        "text": "Round trip of every chunk class through the real serialize_packet/parse_packet with symbolic fields (crc32c as an uninterpreted deterministic function), plus a bit-precise CRC32c model (validated against google_crc32c each run) for the burst-error clause.",
+        "text": "Round trip of every chunk class through the real serialize_packet/parse_packet with symbolic fields (crc32c as an uninterpreted deterministic function), two instances of a class round-tripped in one process (no state shared between chunk objects), plus a bit-precise CRC32c model (validated against google_crc32c each run) for the burst-error clause.",
         "note": "Bounds: user data <=8 B fully symbolic plus a length sweep (quick 36 lengths, thorough every length 1..1200) with symbolic sentinels; <=3 params/gaps/streams; bursts: every start offset and all patterns of <=32 bits on real serialize_packet outputs of 28..64 B (quick 3 shapes, thorough 8 + sampled offsets up to 1212 B), bit order = CRC order. One protocol-inherent known finding (bursts straddling the checksum field, KF-C08-straddling-burst).",
         "ref": "DESIGN.md 4 C08",
     },
     "C09": {
-        "text": "Round trip of ICE candidates and of SessionDescription objects built from symbolic fields through the real __str__/parse (symbolic strings with lazy decimal atoms, regex interpreter for the m= line).",
-        "note": "Bounds: <=2 m-lines, <=2 codecs, tokens of 1-2 symbolic lower-case letters, integers over their full ranges as lazy decimal atoms, enumerated attributes varied along 3 (quick) / 6 variant indices (not their product); arbitrary character-level SDP text, descriptions produced by real createOffer/createAnswer (exercised concretely by C14/C03) and contrib.signaling (json) are outside.",
+        "text": "Round trip of ICE candidates and of SessionDescription objects built from symbolic fields through the real __str__/parse (symbolic strings with lazy decimal atoms, regex interpreter for the m= line), and of candidates through contrib.signaling's object_to_string/object_from_string with json replaced by a lossless stand-in.",
+        "note": "Bounds: <=2 m-lines, <=2 codecs, tokens of 1-2 symbolic lower-case letters, integers over their full ranges as lazy decimal atoms, enumerated attributes varied along 3 (quick) / 6 variant indices (not their product); arbitrary character-level SDP text, descriptions produced by real createOffer/createAnswer (exercised concretely by C14/C03) and the JSON text of contrib.signaling are outside.",
         "ref": "DESIGN.md 4 C09",
     },
     "C10": {
-        "text": "One-step inductive check of JitterBuffer.add from an arbitrary invariant-satisfying buffer state (origin, slot occupancy, sequence numbers and timestamps all symbolic) plus a BMC from the constructor state over solver-chosen arrival orders.",
+        "text": "One-step inductive check of JitterBuffer.add from an arbitrary invariant-satisfying buffer state (origin, slot occupancy, sequence numbers and timestamps all symbolic) plus a BMC from the constructor state over solver-chosen arrival orders, overflow eviction ending at a frame boundary, and the receiver's forwarding of the key-frame request (real RTCRtpReceiver._handle_rtp_packet with a capacity-4 buffer).",
         "note": "Bounds: capacity 4 quick / 4 and 8 thorough (16,128 outside; the code is parametric in the capacity), prefetch 0..4, audio and video.",
         "ref": "DESIGN.md 4 C10",
     },
     "C11": {
-        "text": "NACK generator and retransmission step checks from symbolic states and a closed-loop BMC of the real sender/receiver RTP path over stub transports with solver-chosen loss/duplication/reordering; NACKs also travel serialised (RtcpRtpfbPacket bytes -> parse) before the sender handles them.",
+        "text": "NACK generator and retransmission step checks from symbolic states and a closed-loop BMC of the real sender/receiver RTP path over stub transports with solver-chosen loss/duplication/reordering; NACKs also travel serialised (RtcpRtpfbPacket bytes -> parse) before the sender handles them; RTCRtpSender.send() picks the RTX payload type whose apt names the sent codec for any order of the codec list.",
         "note": "Bounds: <=3 frames x <=2 packets, <=6 network events; SRTP, real codecs and pacing outside.",
         "ref": "DESIGN.md 4 C11",
     },
     "C12": {
         "text": "Differential check of the real RtpRouter against a ~35-line reference router transcribed from the property, over solver-chosen sequences of register/unregister/route operations with symbolic SSRCs and payload types.",
-        "note": "Bounds: <=3 receivers, <=2 senders, <=5 operations.",
+        "note": "Bounds: <=3 receivers, <=2 senders; every operation sequence of length <=3 (quick, plus four length-4 unregistration histories) / <=4 (plus a length-5 family).",
         "ref": "DESIGN.md 4 C12",
     },
     "C13": {
-        "text": "DCEP OPEN fidelity round trip with symbolic Unicode label/protocol, id allocation step, forward-only readyState step from arbitrary channel/association states, bufferedAmount accounting.",
+        "text": "DCEP OPEN fidelity round trip with symbolic Unicode label/protocol, id allocation step, forward-only readyState step from arbitrary channel/association states, bufferedAmount accounting, close() before the association is established (any explicit id, id re-use), reliability parameters per flushed message (DCEP always reliable and ordered).",
         "note": "Bounds: label/protocol <=2 code points each, <=3 channels; timing outside.",
         "ref": "DESIGN.md 4 C13",
     },
     "C14": {
-        "text": "BMC over API call sequences on two real RTCPeerConnection objects driven on a private real event loop: at every step the solver chooses the peer, the call (createOffer, createAnswer, setLocal offer/answer/implicit, setRemote offer/answer/defective with 7 defect kinds, close); after every call signalingState and both descriptions are compared with the JSEP table, failing calls must raise InvalidStateError / ValueError and leave everything unchanged, a successful set*Description must be what local/remoteDescription then report, closed must be absorbing. Explored from the initial state and from the state after one completed offer/answer round.",
+        "text": "BMC over API call sequences on two real RTCPeerConnection objects driven on a private real event loop: at every step the solver chooses the peer, the call (createOffer, createAnswer, setLocal offer/answer/implicit, setRemote offer/answer/defective with 8 defect kinds, close, close / setLocalDescription started but not yet awaited); after every call signalingState and both descriptions are compared with the JSEP table, failing calls must raise InvalidStateError / ValueError and leave everything unchanged, a successful set*Description must be what local/remoteDescription then report, closed must be absorbing. Explored from the initial state and from the state after one completed offer/answer round.",
         "note": "Bounds: every sequence of <=3 (quick) / <=4 calls on either peer (2 / <=3 after a completed round); offerer with a data channel or data channel + audio transceiver. All data is concrete here (the solver decides the call sequence and the injected defect); pranswer/rollback outside.",
         "ref": "DESIGN.md 4 C14",
     },
